@@ -65,7 +65,8 @@ CHECKS["C16"] = (
     "what a match inside an interval means).", "DESIGN.md §6 C16")
 CHECKS["C17"] = (
     "TLA+ reference spec (Match.tla) + TLC model check of the two-pointer sweep machine (MC_Sweep refines Window for "
-    "every pair of sorted lists on a small grid) + TLC trace validation of recorded get_matched_indices/match_spectra/"
+    "every pair of sorted lists on a small grid; Apa_Sweep: the same machine's invariant proved inductive by Apalache for "
+    "integers of any size) + TLC trace validation of recorded get_matched_indices/match_spectra/"
     "get_fragment_matches/get_matched_intensity_percentage/get_match_coverage calls (Trace_Match)",
     "TLC explores the sweep (shared lower pointer, restarted upper pointer) for all sorted lists up to 3x4 on a 5-point "
     "grid and all tolerances and shows each emitted window equals the declarative one; recorded calls of the real code "
@@ -248,7 +249,11 @@ def main():
         "engines": [{"name": "tlc", "path": "/opt/veriftools/tla/tla2tools.jar",
                      "serves_properties": [c["property_id"] for c in checks],
                      "kind_free_text": "TLC 1.8 explicit-state model checker: model checking of /verif/spec/MC_*, "
-                                       "generation (Gen_*) and trace validation (Trace_*)"}],
+                                       "generation of cases / behaviours (MC_ProForma, MC_Session, MC_Foreign) and trace "
+                                       "validation (Trace_*)"},
+                    {"name": "apalache", "path": "/usr/local/bin/apalache-mc", "serves_properties": ["C17"],
+                     "kind_free_text": "Apalache 0.58 symbolic model checker: inductive invariant of the sweep machine "
+                                       "(spec/Apa_Sweep.tla) for unbounded integer values; stage A of C17"}],
         "checks": checks,
         "not_applicable": na,
         "notes": "Verdicts are always TLC's; Python drivers only generate inputs, call peptacular and project values. "
